@@ -286,7 +286,7 @@ def run_steps(b_unused, dt, truth_only, mk_events, nsteps=3, pin=None, k0_max=No
     """Three real stepForward calls; returns everything the obligations need."""
     from resonaate.scenario import scenario as SC
 
-    mods = [("resonaate.scenario.scenario", {"float": fp.fp_float}), ("resonaate.scenario.clock", {}), ("resonaate.data.events.scheduled_impulse", {}), ("resonaate.data.events.target_addition", {}),
+    mods = [("resonaate.scenario.scenario", {"float": fp.fp_float}), ("resonaate.scenario.clock", {}), ("resonaate.data.events.scheduled_impulse", {"round": fp.fp_round, "int": fp.fp_int, "float": fp.fp_float}), ("resonaate.data.events.target_addition", {}),
             ("resonaate.data.events.agent_removal", {}), ("resonaate.data.events.sensor_time_bias", {}), ("resonaate.data.events.target_task_priority", {}),
             ("resonaate.agents.sensing_agent", {}), ("resonaate.agents.agent_base", {})]
     with time_env(mods) as ns:
@@ -823,11 +823,19 @@ def o_query(rep):
                     return lb, ub, st, en, rid, qid, outs
 
             with fp.mode("relaxed"):
-                res = explore(run, max_paths=4)
-            r = res[0]
+                res = explore(run, max_paths=8)
+            for pi, r in enumerate(res):
+                _query_path(rep, r, pi, scope, with_id)
+
+
+def _query_path(rep, r, pi, scope, with_id):
+    from resonaate.data import events as EV
+
+    if True:
+        if True:
             if r.exc is not None:
                 rep.error(f"query[{scope.value}]", repr(r.exc))
-                continue
+                return
             lb, ub, st, en, rid, qid, outs = r.out
             for rs, got in outs.items():
                 want = z3.And(z3.BoolVal(rs == scope.value), st.t <= ub.t, en.t > lb.t, (rid.t == qid.t) if with_id else z3.BoolVal(True))
@@ -836,7 +844,7 @@ def o_query(rep):
                     f = lambda n: float(mval(m, z3.Real(n)))  # noqa: E731
                     return {"scope": scope.value, "row_scope": rs, "lb": f("lb"), "ub": f("ub"), "start": f("st"), "end": f("en"), "row_id": mval(m, z3.Int("rid")),
                             "id": mval(m, z3.Int("qid")) if with_id else None}
-                rep.prove(f"where[{scope.value},row={rs},id={'given' if with_id else 'none'}]", got == want, r.constraints, inputs=inputs, replay=replay_query,
+                rep.prove(f"where[{scope.value},row={rs},id={'given' if with_id else 'none'}]#{pi}", got == want, r.constraints, inputs=inputs, replay=replay_query,
                           sample="translated where-clause of the real Query <=> scope matches, start <= ub, end > lb, and scope_instance_id equals the requested id when one is given")
 
 
